@@ -128,6 +128,9 @@ fn panic_site(stderr: &str) -> Option<String> {
         _ => comps.last().copied().unwrap_or("?").to_string(),
     };
     let words: Vec<&str> = msg.split(|c: char| !c.is_ascii_alphanumeric()).filter(|w| !w.is_empty()).collect();
+    if msg.contains("Option::unwrap()") {
+        return Some(format!("{}:unwrap-on-None", short));
+    }
     let what = match words.iter().find(|w| w.len() > 5 && w.ends_with("Error") && w.chars().next().is_some_and(|c| c.is_ascii_uppercase())) {
         Some(w) => w.to_string(),
         None => words.iter().take(4).copied().collect::<Vec<_>>().join("-"),
@@ -1404,7 +1407,9 @@ fn main() {
     // ---- 1. bases for the malformed stream + 2. mode probe (run together)
     let mut cand: Vec<Base> = vec![generated_base("ufo", &base_ufo_design()), generated_base("designspace", &base_ds_design())];
     let mut real_glyphs = 0;
-    for rel in ["glyphs3/WghtVar.glyphs", "glyphs2/WghtVar.glyphs", "glyphs3/Component.glyphs", "glyphs3/NestedComponent.glyphs", "glyphs2/MixedContourComponent.glyphs", "glyphs3/WghtVarComposite.glyphs", "glyphs2/Component.glyphs"] {
+    for rel in ["glyphs3/WghtVar.glyphs", "glyphs2/WghtVar.glyphs", "glyphs3/Component.glyphs", "glyphs3/NestedComponent.glyphs", "glyphs2/MixedContourComponent.glyphs", "glyphs3/WghtVarComposite.glyphs", "glyphs2/Component.glyphs",
+                // a source without any master (a parser test file): must be a reported error
+                "glyphs2/Unicode-UnquotedHex.glyphs"] {
         if let Some(b) = real_base("glyphs", rel) {
             cand.push(b);
             real_glyphs += 1;
@@ -1467,7 +1472,7 @@ fn main() {
     let mut rng = Rng::new(seed);
     let hang_budget = if n <= 1000 { 24 } else { 300 };
     let mut cases: Vec<Case> = corpus().into_iter().map(Case::Graph).collect();
-    for (len, flags) in [(300, FlagV::Default), (1500, FlagV::Default), (1500, FlagV::Flatten)] {
+    for (len, flags) in [(300, FlagV::Default), (1500, FlagV::Default), (1500, FlagV::Flatten), (3000, FlagV::Default)] {
         cases.push(Case::Deep(DeepCase { len, flags }));
     }
     let (gcycles, gcycle_skipped) = glyphs_cycle_corpus(&clean_map);
